@@ -1,5 +1,5 @@
 CONSTANTS
-  Broken <- BrokenWhile
+  Broken <- BrokenReclaim
   ProgOf <- FamProgOf
   MaxSteps = 20000
   CtxDepth = 2
@@ -8,5 +8,5 @@ CONSTANTS
   Stress = FALSE
 INIT Init
 NEXT Next
-INVARIANTS LoopsEnd
-PROPERTIES ReturnUnwindsToCall
+INVARIANTS ScopesWellFormed
+PROPERTIES Monotone
